@@ -24,7 +24,7 @@ from mc import spaces as S
 from mc.registry import operators as OR
 
 PROPERTY = 'C03'
-BUDGET = {'quick': 900, 'thorough': 5400}
+BUDGET = {'quick': 1500, 'thorough': 5400}
 
 
 def configs(tier):
@@ -298,6 +298,10 @@ def _run_inst(cfg):
                           'detail': 'options %r: %r' % (o, e)}]}
     dk = o.get('dk', spec.dk)
     pts = OR.points(op.domain, dk, cfg['npts'])
+    if dk in ('any', 'pos', 'nonzero', 'unit') and S.dtype_of(op.domain).kind in 'fc':
+        # one input of tiny, non-dyadic magnitude: "x bit-for-bit unchanged" also when an
+        # implementation perturbs x and undoes the perturbation arithmetically
+        pts = list(pts) + [(np.asarray(pts[0]) * (2.0 ** -30 / 3.0)).astype(pts[0].dtype)]
     root = '%s[%s]' % (spec.name, _optstr(o))
     check_protocol(op, pts, root, first, stats)
     classes = set([type(op).__name__])
